@@ -8,6 +8,9 @@ NOT_APPLICABLE_REASON = "no check built yet for this property in this round (see
 def main():
     props = [json.loads(l) for l in open(os.path.join(VERIF, "properties.jsonl"))]
     have = sorted(os.path.basename(p)[:-3].upper() for p in glob.glob(os.path.join(VERIF, "props", "c[0-9]*.py")))
+    # only drivers that have been reviewed and integrated are claimed (one id per line in claimed.txt)
+    claimed = set(open(os.path.join(VERIF, "claimed.txt")).read().split())
+    have = [h for h in have if h in claimed]
     checks, na = [], []
     for p in props:
         pid = p["id"]
